@@ -718,5 +718,5 @@ func TestSharedConnection(t *testing.T) {
 func TestIDs(t *testing.T) { vt.Run(t, prop, "TestIDs", genIDs, checkIDs) }
 
 func TestReplay(t *testing.T) {
-	vt.Replay(t, map[string]func(json.RawMessage) error{"TestCalls": vt.Decode(checkCase), "TestIDs": vt.Decode(checkIDs), "TestSharedConnection": vt.Decode(checkShared), "TestClientObjects": vt.Decode(checkCo)})
+	vt.Replay(t, map[string]func(json.RawMessage) error{"TestCalls": vt.Decode(checkCase), "TestIDs": vt.Decode(checkIDs), "TestSharedConnection": vt.Decode(checkShared), "TestClientObjects": vt.Decode(checkCo), "TestCancelStorm": vt.Decode(checkStorm)})
 }
